@@ -286,7 +286,19 @@ int main(int argc, char **argv) {
     }
     // ---- decoding ---------------------------------------------------------------------
     const std::string dref = DecodeSig(ref.bytes.data(), ref.bytes.size());
-    if (dref.rfind("ok:", 0) != 0) { rep.count("decode_refused_own_stream"); rep.held(0, false); return; }  // C01's business
+    if (dref.rfind("ok:", 0) != 0) {
+      // That the own stream must decode is C01's business; that the verdict must not depend on what follows the
+      // stream is this property's: the same bytes followed by a tail must be refused as well.
+      for (size_t tail_len : {static_cast<size_t>(1 + r.below(64)), static_cast<size_t>(4096), static_cast<size_t>(200000)}) {
+        std::string with_tail = ref.bytes;
+        for (size_t i = 0; i < tail_len; ++i) with_tail += static_cast<char>(r.below(256));
+        const std::string dt = DecodeSig(with_tail.data(), with_tail.size());
+        if (dt.rfind("ok:", 0) == 0) { rep.violation("decode-affected-by-trailing-bytes/refused-without-tail/" + cfg, desc + " exact=" + dref + " with " + std::to_string(tail_len) + " trailing bytes=" + dt, arts); return; }
+      }
+      rep.count("decode_refused_own_stream");
+      rep.held(0, false);
+      return;
+    }
     if (dref.substr(dref.rfind(':') + 1) != "0") { rep.violation("decode-does-not-consume-exactly-the-stream/" + cfg, desc + " sig=" + dref, arts); return; }
     for (int m = 1; m <= 4; ++m) {
       ModeGuard mg(m, static_cast<int>(r.below(256)));
